@@ -844,7 +844,7 @@ def real_sequence(ctx, rng, suite, zlib_on, nmsgs, maxlen, switch_to=None):
 def real_search(ctx):
     rng = ctx.rng
     suites = real_suites()
-    reps = 30 if ctx.thorough else 1
+    reps = 20 if ctx.thorough else 1
     for suite in suites:
         for zlib_on in (False, True):
             for rep in range(reps):
@@ -1335,7 +1335,7 @@ def run(ctx):
     ctx.prove()
 
     # ---- 1. toy correspondence ------------------------------------------------
-    n = 1200 if ctx.thorough else 90
+    n = 800 if ctx.thorough else 90
     cases = []
     descs = []
     for _ in range(n):
@@ -1353,7 +1353,7 @@ def run(ctx):
 
     # ---- 1b. timeouts inside packets, re-key pending ---------------------------------
     cases, descs = [], []
-    for _ in range(600 if ctx.thorough else 60):
+    for _ in range(400 if ctx.thorough else 60):
         case, expected, desc = run_toy_timeouts(ctx, rng)
         if len(expected) + len(case) // 3 > 6000:
             continue
@@ -1369,7 +1369,7 @@ def run(ctx):
 
     # ---- 1c. send side: write_all over a scripted socket -----------------------------
     cases, descs = [], []
-    for _ in range(1500 if ctx.thorough else 120):
+    for _ in range(800 if ctx.thorough else 120):
         case, expected, desc = run_write_all(ctx, rng)
         cases.append((case, expected))
         descs.append(desc)
